@@ -1209,6 +1209,11 @@ func (g *DocGen) schemaMap(path []string, kw string, depth int) obj {
 			choices := []interface{}{float64(i), float64(1), float64(1), "2", "10", 1.5, float64(-3), "abc", true, float64(1 << 40), "1"}
 			s["x-order"] = choices[g.R.Intn(len(choices))]
 		}
+		if g.XOrder && kw == "properties" && g.R.Intn(4) == 0 {
+			// an extension that differs from x-order by letter case only, next to it or alone, with a value of its own
+			s[[]string{"X-Order", "X-ORDER", "x-Order"}[g.R.Intn(3)]] = float64(g.R.Intn(12))
+			g.cell("schema", "x-order-case-variant")
+		}
 		m[nm] = s
 	}
 	return m
